@@ -364,7 +364,7 @@ def c09(pid, tier, seed, t0):
 def c12(pid, tier, seed, t0):
     stages = [H("determinism-checked", "c12", "checked"), P("ucinewgame-binary", _pm2("c12_stage"))]
     return run_stages(pid, tier, seed, t0, "exploration", stages,
-                      required=("binary_ucinewgame_right_after_bestmove_with_delay", "binary_ucinewgame_then_go_without_position", "binary_fresh_engine_without_any_preamble", "lockstep_searches_compared", "searches_begun_seconds_after_their_stopwatch", "reset_then_compare_with_fresh", "second_run_under_load",
+                      required=("binary_ucinewgame_right_after_bestmove_with_delay", "binary_ucinewgame_then_go_without_position", "binary_fresh_engine_without_any_preamble", "lockstep_searches_compared", "searches_begun_seconds_after_their_stopwatch", "binary_ucinewgame_after_bench_in_session", "reset_then_compare_with_fresh", "second_run_under_load",
                                 "long_chain_ge_255_generations", "hash_1mb", "hash_64mb"),
                       assumptions=["transcript = best move + depth, seldepth, score, nodes, hashfull, line of every "
                                    "iteration; time and nps excluded"])
@@ -375,7 +375,7 @@ def c14(pid, tier, seed, t0):
               H("limits-opt", "c14", "opt", group="c14-opt"),
               P("timed-release", _pm2("c14_stage"))]
     return run_stages(pid, tier, seed, t0, "exploration", stages,
-                      required=("timed_searches", "timed_searches_at_200ms", "timed_searches_quiescence_heavy", "timed_searches_after_option_in_bestmove_window", "timed_searches_whose_thread_started_after_the_clock_ran_out", "timed_searches_with_only_the_movers_clock", "timed_long_sessions_past_256_searches", "movetime_with_overhead_cases", "grid_tuples", "random_tuples", "remaining_below_200ms",
+                      required=("timed_searches", "timed_searches_at_200ms", "timed_searches_quiescence_heavy", "timed_searches_after_option_in_bestmove_window", "timed_searches_whose_thread_started_after_the_clock_ran_out", "timed_searches_with_only_the_movers_clock", "timed_searches_right_after_a_long_search", "timed_long_sessions_past_256_searches", "movetime_with_overhead_cases", "grid_tuples", "random_tuples", "remaining_below_200ms",
                                 "only_one_sides_time_supplied", "moves_to_go_1", "moves_to_go_u32_max",
                                 "overhead_exactly_half", "fixed_movetime_cases"),
                       assumptions=["limits read through hook H2", "bound checked with a tolerance of one f32 ulp of the "
@@ -425,7 +425,8 @@ def c17(pid, tier, seed, t0):
                       required=("games_with_castle", "games_with_ep", "games_with_promo_q", "games_with_promo_r",
                                 "games_with_promo_b", "games_with_promo_n", "games_from_fen", "games_from_startpos",
                                 "games_with_session_step", "games_with_session_step_after_ucinewgame",
-                                "sessions_with_command_right_after_bestmove_delay", "games_with_long_game"),
+                                "sessions_with_command_right_after_bestmove_delay", "games_with_long_game",
+                                "games_with_command_between_position_and_dump"),
                       assumptions=["games and expectations come from refchess; the en-passant field of the FEN dump is "
                                    "accepted under any single recording convention"])
 
